@@ -57,6 +57,9 @@ func BitsSym() {
 	nops := vx.Param("ops", 3)
 	var a, b setz.Bits
 	ma, mb := &model{}, &model{}
+	// Len is observed either after every call or only at the very end (an observer that is called after every
+	// step would hide a cached length that is only repaired by Len itself)
+	lenAtEnd := vx.Param("lenmode", 0) == 1 && vx.Choose(2) == 1
 	for step := 0; step < nops; step++ {
 		s, m := &a, ma
 		o, mo := &b, mb
@@ -84,14 +87,14 @@ func BitsSym() {
 			for i, n := range m.nums {
 				m.alive[i] = vx.And(m.alive[i], !before.has(n))
 			}
-			checkSet(o, before, limit, "other operand untouched by Diff")
+			checkSetL(o, before, limit, "other operand untouched by Diff", !lenAtEnd)
 		case 3:
 			before := mo.clone()
 			s.Intersect(*o)
 			for i, n := range m.nums {
 				m.alive[i] = vx.And(m.alive[i], before.has(n))
 			}
-			checkSet(o, before, limit, "other operand untouched by Intersect")
+			checkSetL(o, before, limit, "other operand untouched by Intersect", !lenAtEnd)
 		case 4:
 			before := mo.clone()
 			s.Merge(*o)
@@ -102,7 +105,7 @@ func BitsSym() {
 					}
 				}
 			}
-			checkSet(o, before, limit, "other operand untouched by Merge")
+			checkSetL(o, before, limit, "other operand untouched by Merge", !lenAtEnd)
 		case 5:
 			c := s.Clone()
 			x := symNum(limit)
@@ -115,14 +118,19 @@ func BitsSym() {
 		case 7:
 			// observers only
 		}
-		checkSet(s, m, limit, "set")
-		checkSet(o, mo, limit, "other set")
+		last := step == nops-1
+		checkSetL(s, m, limit, "set", !lenAtEnd || last)
+		checkSetL(o, mo, limit, "other set", !lenAtEnd || last)
 	}
 }
 
-func checkSet(s *setz.Bits, m *model, limit int, what string) {
-	vx.Assert(s.Len() == m.count(), what+": Len equals the cardinality")
-	vx.Assert(s.Bitmap.Len() == m.count(), what+": Bitmap.Len equals the cardinality")
+func checkSet(s *setz.Bits, m *model, limit int, what string) { checkSetL(s, m, limit, what, true) }
+
+func checkSetL(s *setz.Bits, m *model, limit int, what string, withLen bool) {
+	if withLen {
+		vx.Assert(s.Len() == m.count(), what+": Len equals the cardinality")
+		vx.Assert(s.Bitmap.Len() == m.count(), what+": Bitmap.Len equals the cardinality")
+	}
 	y := symNum(limit + 64)
 	vx.Assert(s.Contains(y) == m.has(y), what+": Contains reports membership")
 }
@@ -360,10 +368,57 @@ func BitsStep() {
 	}
 }
 
+// BitsStep2: a bulk operation on arbitrary words immediately followed by Add or Remove, Len observed only
+// afterwards (no observer between the two calls).
+func BitsStep2() {
+	na := vx.Choose(vx.Param("na", 2) + 1)
+	nb := vx.Choose(vx.Param("nb", 2) + 1)
+	wa := make([]uint64, na)
+	for i := range wa {
+		wa[i] = vx.Uint64("wa")
+	}
+	wb := make([]uint64, nb)
+	for i := range wb {
+		wb[i] = vx.Uint64("wb")
+	}
+	a := setz.VerifBits(wa)
+	b := setz.VerifBits(wb)
+	x := vx.Uint("x")
+	vx.Assume(x < 64*4)
+	m := vx.Uint("m")
+	vx.Assume(m < 64*5)
+	inA, inB := wordHas(wa, m), wordHas(wb, m)
+	xA, xB := wordHas(wa, x), wordHas(wb, x)
+	var mem, xmem bool // membership of m and of x after the bulk operation
+	switch vx.Choose(3) {
+	case 0:
+		a.Diff(b)
+		mem, xmem = vx.And(inA, !inB), vx.And(xA, !xB)
+	case 1:
+		a.Intersect(b)
+		mem, xmem = vx.And(inA, inB), vx.And(xA, xB)
+	case 2:
+		a.Merge(b)
+		mem, xmem = vx.Or(inA, inB), vx.Or(xA, xB)
+	}
+	if vx.Choose(2) == 0 {
+		got := a.Add(x)
+		vx.Assert(got == !xmem, "Add after a bulk operation reports whether membership changed")
+		vx.Assert(a.Contains(m) == vx.Or(mem, m == x), "bulk operation then Add: membership")
+	} else {
+		got := a.Remove(x)
+		vx.Assert(got == xmem, "Remove after a bulk operation reports whether membership changed")
+		vx.Assert(a.Contains(m) == vx.And(mem, m != x), "bulk operation then Remove: membership")
+	}
+	vx.AssertSig(a.Len() == popcount(setz.VerifWords(&a)), "Len equals the cardinality after a bulk operation followed by Add/Remove with no observer in between", "len-after-bulk-then-element-op")
+	vx.Assert(b.Len() == popcount(wb), "the other operand's Len is untouched")
+}
+
 var Harnesses = map[string]func(){
-	"vh/c16.BitsSym":  BitsSym,
-	"vh/c16.BitsEnum": BitsEnum,
-	"vh/c16.DszEnum":  DszEnum,
-	"vh/c16.DszSym":   DszSym,
-	"vh/c16.BitsStep": BitsStep,
+	"vh/c16.BitsStep2": BitsStep2,
+	"vh/c16.BitsSym":   BitsSym,
+	"vh/c16.BitsEnum":  BitsEnum,
+	"vh/c16.DszEnum":   DszEnum,
+	"vh/c16.DszSym":    DszSym,
+	"vh/c16.BitsStep":  BitsStep,
 }
